@@ -33,11 +33,11 @@ func RegisterWorker(name string, w Worker) { workers[name] = w }
 
 // BatchResult is the outcome for one input.
 type BatchResult struct {
-	Index   int
-	Crashed bool   // process died while processing this input
-	TimedOut bool  // watchdog fired (inconclusive)
-	Stderr  string // tail of stderr for a crash
-	Result  json.RawMessage
+	Index    int
+	Crashed  bool   // process died while processing this input
+	TimedOut bool   // watchdog fired (inconclusive)
+	Stderr   string // tail of stderr for a crash
+	Result   json.RawMessage
 }
 
 // ChildMain is called from main() when argv[1] == "__child".
